@@ -174,8 +174,22 @@ structure JSt where
   lastEvictOk : Bool := false
   links : List (Path × Path) := []
 
-/-- the path a row denotes, as the operating system resolves it (or the literal join) -/
-def rowPath (fs : FS) (root : Path) (r : Row) : Path := canonOrKeep fs (root ++ r.rel)
+/-- where a name physically lives: the resolved path; for a name that does not resolve, its resolved
+directory plus the name; the literal path when not even the directory resolves -/
+def physPath (fs : FS) (p : Path) : Path :=
+  match canonicalize fs p with
+  | .ok q => q
+  | .error _ =>
+    match p.getLast? with
+    | none => p
+    | some last =>
+      if last = ".." then p
+      else match canonicalize fs p.dropLast with
+        | .ok par => par ++ [last]
+        | .error _ => p
+
+/-- the path a row denotes (`root/rel`), as the operating system resolves it -/
+def rowPath (fs : FS) (root : Path) (r : Row) : Path := physPath fs (root ++ r.rel)
 
 def rowEscapes (fs : FS) (root : Path) (r : Row) : Bool := !isPrefix root (rowPath fs root r)
 
@@ -245,14 +259,22 @@ def judgeEvict (st : JSt) (root : Path) (I I' : List Row) (F F' : FS) : Except S
   let cutoff : Option Nat := st.maxAge.map (vnow - ·)
   let aged (r : Row) : Bool := match cutoff with | some c => decide (r.atime < c) | none => false
   -- age
+  -- a kept row whose file is already missing (and whose name could be unlinked without error)
+  let absentRow (r : Row) : Bool := !rowPresent F root r && !rowStuck F root r
   match I'.find? (fun r => aged r && !rowStuck F root r) with
-  | some r => throw s!"[age] {showRel r.rel} is older than the maximum age and was kept"
+  | some r =>
+    if absentRow r then
+      throw s!"[absent-row-kept] {showRel r.rel} is older than the maximum age, its file is already missing, and the row was not forgotten"
+    throw s!"[age] {showRel r.rel} is older than the maximum age and was kept"
   | none => pure ()
   let R' := R.filter (fun r => !aged r)
   let keptDeletable := I'.filter (fun r => !rowStuck F root r)
   -- least recently used first (ties in any order)
   match R'.find? (fun r => keptDeletable.any (fun k => decide (k.atime < r.atime))) with
-  | some r => throw s!"[lru-order] {showRel r.rel} was removed although a less recently used file was kept"
+  | some r =>
+    if (keptDeletable.filter (fun k => decide (k.atime < r.atime))).all absentRow then
+      throw s!"[absent-row-kept] {showRel r.rel} was removed although a less recently used row, whose file is already missing, was not forgotten"
+    throw s!"[lru-order] {showRel r.rel} was removed although a less recently used file was kept"
   | none => pure ()
   match st.maxSize with
   | none =>
@@ -272,6 +294,8 @@ def judgeEvict (st : JSt) (root : Path) (I I' : List Row) (F F' : FS) : Except S
       let minKept := keptDeletable.foldl (fun a r => min a r.atime) (2 ^ 64)
       let stuckOld := (I'.filter (fun r => rowStuck F root r && decide (r.atime ≤ minKept)))
       if sumR + (sumI stuckOld).toNat < excess then
+        if keptDeletable.any (fun k => absentRow k && decide (k.atime ≤ minKept)) then
+          throw s!"[absent-row-kept] total after the pass {(sumI I').toNat} > max {m}: a least recently used row whose file is already missing was not forgotten"
         throw s!"[fits] total after the pass {(sumI I').toNat} > max {m} although deletable files remain"
   -- idempotence
   if st.lastEvictOk && (!R.isEmpty || !D.isEmpty) then
